@@ -105,6 +105,8 @@ use core::future::Future;
 use futures_core::Stream;
 
 mod waker_list;
+#[cfg(futures_buffered_verif)]
+pub mod verif;
 mod buffered;
 mod futures_ordered;
 mod futures_ordered_bounded;
